@@ -1482,6 +1482,8 @@ class SX:
                 seg = ('m', P(pb.base, pb.off + i0), c0) if isinstance(pb, P) else ('v', None, c0)
                 if isinstance(pb, P) and pb.base[0] == 'a' and self.alloca_size.get(pb.base) is not None:
                     ok = s.cons.entails_le(0, pb.off + i0) and s.cons.entails_le(pb.off + bv, self.alloca_size[pb.base])
+                    if not ok:
+                        self.loop_opaque(fn, [pb.off + i0, bv])
                     nm = fn.var_name(V({'k': 'inst', 'id': info['cnt'].id})) or info['cnt'].name
                     self.oblige('emit-read', fn, nm, ok, info['call'].where(),
                                 None if ok else 'the emission loop reads offsets %r..%r of a %d-byte local buffer'
@@ -1716,6 +1718,19 @@ class SX:
                     return v
         return None
 
+    def loop_opaque(self, fn, lins):
+        """a count or offset that is the exit value of a loop the executor only over-approximates (a hand-written copy / scan
+        that the summariser does not know) is unknown: an extent computed from it is not a verdict"""
+        if self.recording or not getattr(self, 'guard_opaque_reads', True):
+            return
+        for x in lins:
+            if isinstance(x, Lin):
+                for sy in x.t:
+                    d = self.describe_opq(sy) if isinstance(sy, str) else None
+                    if d is not None and d[0] in ('h', 'hE', 'hp', 'j', 'jE'):
+                        raise AnalysisBroken('c06_sx: %s: an emission count is the value a loop of %s leaves in %r, which is not '
+                                             'summarised' % (fn.name, d[1], d[2:]))
+
     def describe_opq(self, sym):
         for desc, n in self.intern.items():
             if 'q%d' % n == sym:
@@ -1782,6 +1797,8 @@ class SX:
             st.env[('i', info['ptr'].id)] = P(p0.base, p0.off + c0) if isinstance(p0, P) else None
             if isinstance(p0, P) and p0.base[0] == 'a' and self.alloca_size.get(p0.base) is not None:
                 ok = st.cons.entails_le(0, p0.off) and st.cons.entails_le(p0.off + c0, self.alloca_size[p0.base])
+                if not ok:
+                    self.loop_opaque(fn, [c0, p0.off])
                 nm = fn.var_name(V({'k': 'inst', 'id': info['cnt'].id})) or info['cnt'].name
                 self.oblige('emit-read', fn, self.loop_key(fn, {'header': H}, nm), ok, info['call'].where(),
                             None if ok else 'the emission loop reads %r bytes at offset %r of a %d-byte local buffer'
